@@ -178,7 +178,11 @@ class _ZkProve(_Backend):
             shapes.append(dict(npub=2, npriv=2, cons=[[(-1, 1), (-2,), (2, 0)], [(), (0,), (-1,)]]))
         # (the 1030-row shape is discharged by the checks of the properties this writer belongs to, not again by every
         # check that merely leans on the backend interface)
-        return [dict(shape=s if isinstance(s, str) else repr(s), **({"own_only": True} if isinstance(s, str) else {})) for s in shapes]
+        out = [dict(shape=s if isinstance(s, str) else repr(s), **({"own_only": True} if isinstance(s, str) else {})) for s in shapes]
+        # CONCRETE coefficients at the byte boundaries of the element encoding (256^k, 256^k - 1, the largest element): what
+        # a writer computes from a coefficient's size (a width, a length prefix) is exercised where such a size changes
+        out += [dict(shape=repr(dict(npub=1, npriv=1, cons=[[(1, -1), (-1,), (0, 1)]])), coefs=k, own_only=True) for k in ("256**7", "256**8", "256**16-1", "p-1")]
+        return out
 
     def setup(self, c, cfg):
         m = self.mod(c)
@@ -191,7 +195,7 @@ class _ZkProve(_Backend):
             for keys in con:
                 dd = {}
                 for k in keys:
-                    dd[k] = SymInt(z3.Int("s_coef%d" % n))
+                    dd[k] = SymInt(z3.Int("s_coef%d" % n)) if "coefs" not in cfg else eval(cfg["coefs"], {"p": self.expected_modulus}) + (n % 2)
                     n += 1
                 row.append(m.LinearCombination(dd))
             cons.append(row)
